@@ -7,8 +7,9 @@ report the device count and how many devices E / inv_permittivities are laid out
 parent compares final fields and every detector record of the 2- and 4-device runs against the 1-device run.
 
 Child entry points (same bootstrap as the engine, honours VERIF_REPO_SRC):
-    python -m pbt.props.c42 --child <specfile> <outfile>            one spec, then exit
-    python -m pbt.props.c42 --serve <lane>                          one JSON request per stdin line (amortises the import)
+    python -m pbt.props.c42 --child <specfile> <outfile>     one spec, then exit (thorough tier: one child at a time)
+    python -m pbt.props.c42 --serve <lane>                   one JSON request per stdin line (quick tier: the three
+                                                             servers stay alive and amortise import + warm-up)
 """
 
 from __future__ import annotations
@@ -322,30 +323,56 @@ def _with_twins(scene):
     return sc
 
 
-def _run_children(case, lane):
-    """-> {n: (meta, {name: array})}; children are long-lived servers (one per device count), requests run in parallel."""
+def _load(out):
+    with np.load(out) as z:
+        meta = json.loads(str(z["meta"]))
+        arrays = {k: z[k] for k in z.files if k != "meta"}
+    return meta, arrays
+
+
+def _run_children(case, lane, persistent):
+    """-> {n: (meta, {name: array})}.
+
+    persistent (quick tier): one long-lived server per device count, the three requests run in parallel.
+    otherwise (thorough tier, 16 workers): one-shot `--child` processes one after the other, so that a worker never
+    has more than one child alive (a child holds 0.5-1 GB)."""
     d = _scratch()
     fp = engine.fingerprint(case)
     scene = _with_twins(case["scene"])
-    pending = []
+    jobs = []
     for n in DEVICE_COUNTS:
         spec = os.path.join(d, f"{fp}-{n}.json")
         out = os.path.join(d, f"{fp}-{n}.npz")
         with open(spec, "w") as f:
             json.dump({"scene": scene, "lane": lane, "expect_devices": n}, f)
-        p = _server(n, lane)
-        p.stdin.write(json.dumps({"spec": spec, "out": out}) + "\n")
-        p.stdin.flush()
-        pending.append((n, p, spec, out))
+        jobs.append((n, spec, out))
     res = {}
-    for n, p, spec, out in pending:
-        line = _reply(p, f"the {n}-device run")
-        if line != "done":
-            raise RuntimeError(f"C42 child ({n} devices) failed outside fdtdx: {line!r}")
-        with np.load(out) as z:
-            meta = json.loads(str(z["meta"]))
-            arrays = {k: z[k] for k in z.files if k != "meta"}
-        res[n] = (meta, arrays)
+    if persistent:
+        procs = {}
+        for n, spec, out in jobs:
+            procs[n] = _server(n, lane)
+            procs[n].stdin.write(json.dumps({"spec": spec, "out": out}) + "\n")
+            procs[n].stdin.flush()
+        for n, spec, out in jobs:
+            line = _reply(procs[n], f"the {n}-device run")
+            if line != "done":
+                raise RuntimeError(f"C42 child ({n} devices) failed outside fdtdx: {line!r}")
+    else:
+        for n, spec, out in jobs:
+            log = os.path.join(d, f"{fp}-{n}.log")
+            with open(log, "w") as lf:
+                try:
+                    rc = subprocess.run([sys.executable, "-m", "pbt.props.c42", "--child", spec, out],
+                                        cwd=engine.VERIF_DIR, env=_child_env(n), stdout=lf, stderr=subprocess.STDOUT,
+                                        timeout=_TIMEOUT_S).returncode
+                except subprocess.TimeoutExpired:
+                    raise RuntimeError(f"C42 child ({n} devices) timed out after {_TIMEOUT_S:.0f}s") from None
+            if rc != 0 or not os.path.exists(out):
+                tail = open(log).read()[-2000:]
+                raise RuntimeError(f"C42 child ({n} devices) died rc={rc}: {tail}")
+            os.remove(log)
+    for n, spec, out in jobs:
+        res[n] = _load(out)
         os.remove(spec)
         os.remove(out)
     return res
@@ -359,7 +386,7 @@ def _amax(x):
 def body(ctx, case):
     scene = case["scene"]
     nx = scene["shape"][0]
-    res = _run_children(case, ctx.lane)
+    res = _run_children(case, ctx.lane, persistent=(ctx.tier == "quick"))
 
     # ---- children sanity (harness) and fdtdx errors --------------------------------------------------
     for n, (meta, _) in res.items():
@@ -447,8 +474,8 @@ def body(ctx, case):
 
 
 SUBS = [
-    Sub(name="device_count", body=body, strategy=lambda ctx: case_strategy(ctx), quick=4, thorough=80,
-        lanes=("f64", "f32"), f32_fraction=0.5, quick_shards=1,
+    Sub(name="device_count", body=body, strategy=lambda ctx: case_strategy(ctx), quick=4, thorough=64,
+        lanes=("f64", "f32"), f32_fraction=0.25, quick_shards=1, max_seconds_quick=600.0,
         rule="one spec, three child processes with 1/2/4 emulated host devices, results compared with the 1-device run"),
 ]
 
